@@ -6,7 +6,7 @@ from . import cu
 MODULES = ['DsdVerif.Props.C20']
 GEN_FILES = ['LegacyIupac', 'IupacTables']
 THEOREM_NAMES = ['legacy_iupac_agree_dna', 'legacy_iupac_agree_rna', 'legacy_wobble_total']
-THEOREMS = ['Dsd.C20.' + t for t in THEOREM_NAMES]
+THEOREMS = ['Dsd.C20.' + t for t in THEOREM_NAMES] + ['Dsd.C20L.' + t for t in ('legacy_canon_eq', 'legacy_rotations_spec', 'legacy_dup_iff')]
 ASSUMPTIONS = [
     'the legacy SequenceConstraint tables are transcribed from the dictionaries inside its methods (Gen/LegacyIupac.lean, evaluated with '
     'T -> T and T -> U) and compared with the current tables by kernel-decided theorems',
@@ -53,8 +53,9 @@ def run(res, proof):
         except Exception as e:
             return ('err', type(e).__name__)
 
-    for s in structs:
-        names = gen.label(s, rng, ['a', 'b'])
+    cases = [(gen.label(s, rng, ['a', 'b']), s) for s in structs] + gen.symmetric_complexes()
+    dom.update({n: DomainS(n, 5) for n in ('a*', 'b*', 'x')})
+    for names, s in cases:
         rots = ref.rotations(names, s)
         n = len(rots)
         for k, (rn, rs) in enumerate(rots):
